@@ -141,7 +141,7 @@ func linkObj(a Att) map[string]any {
 	return m
 }
 
-const settle = 20 * time.Second
+const settle = 60 * time.Second
 
 func check(c Case) vrep.Result {
 	prefix := sim.NewPrefix()
